@@ -90,7 +90,48 @@ func ruleRowIndicators(c *Ctx) {
 		}
 		find(rets[0].Results[0], 0)
 		if phi == nil {
-			c.Undecided(R, side.fn, fn.Pos(), "result does not depend on a case selection (phi)")
+			// the selection happens elsewhere (a helper shared by both sides, a table): evaluate the result
+			// with the cluster number substituted
+			var ks []ssa.Value
+			eachInstr(fn, func(b *ssa.BasicBlock, ins ssa.Instruction) {
+				if v, ok := ins.(ssa.Value); ok && isIntType(v.Type()) {
+					if pEqual(n.Norm(v), MustRef("row % 3")) {
+						ks = append(ks, v)
+					}
+				}
+			})
+			if len(ks) == 0 {
+				c.Undecided(R, side.fn, fn.Pos(), "result does not depend on the cluster number row % 3")
+				continue
+			}
+			for k := int64(0); k < 3; k++ {
+				key := fmt.Sprintf("%s/cluster%d", side.fn, k)
+				env := map[ssa.Value]Poly{}
+				for _, v := range ks {
+					env[v] = pConst(k)
+				}
+				n.env = append(n.env, env)
+				var got Poly
+				cnt, open := 0, ""
+				for _, cs := range n.valueCases(fn, nil, rets[0].Results[0], 0) {
+					if eq, _ := CondEquivalent(cs.cond, cFalse); eq {
+						continue
+					}
+					if eq, _ := CondEquivalent(cs.cond, cTrue); eq {
+						got = cs.val
+						cnt++
+					} else {
+						open += cs.cond.String() + "; "
+					}
+				}
+				n.env = n.env[:len(n.env)-1]
+				want := pAdd(MustRef("30*(row/3)"), MustRef(quant[(int(k)+side.rot)%3]), 1)
+				if cnt != 1 || open != "" {
+					c.Undecided(R, key, fn.Pos(), "the value for this cluster is not decided by row % 3 alone: "+open)
+					continue
+				}
+				c.Check(R, key, fn.Pos(), pEqual(got, want), want.String(), got.String())
+			}
 			continue
 		}
 		// scrutinee: bind every value normalising to Mod(row,3) to role k
